@@ -274,10 +274,18 @@ fn field_type_description(
     transformer: &Transformer<String>,
 ) -> anyhow::Result<String> {
     let mut type_description = transformer.resolve(field.ty.id)?;
+    // `Box<` has to start at an identifier boundary: `MyBox<u8>` is not a `Box`.
     let is_boxed = field
         .type_name
         .as_ref()
-        .map(|e| e.contains("Box<"))
+        .map(|e| {
+            e.match_indices("Box<").any(|(idx, _)| {
+                !e[..idx]
+                    .chars()
+                    .next_back()
+                    .is_some_and(|c| c.is_alphanumeric() || c == '_')
+            })
+        })
         .unwrap_or_default();
     if is_boxed {
         type_description = format!("Box<{}>", type_description);
